@@ -31,7 +31,8 @@ EmitOK == LET fr == EmittedFrame
              /\ e.o = <<0, IF Kind \in 1..4 THEN (Seq0 + 1) % 65536 ELSE Seq0>> \o Wire(Tr, fr) \o <<-7>> \o PeerView(fr)
 
 (* ------------------------------------------------------------------ rx events (C06, C07, C09) *)
-MustFail == e.a[1] = 1        \* set by the generator for corruptions inside the family C07 guarantees to be caught
+MustFail == e.a[1] = 1        \* set by the generator for corruptions inside the family the CRC guarantees to be caught
+                              \* (3 = burst across a checksum-field boundary: claimed by C07, not guaranteed - open finding)
 RTr == e.a[2]
 Cfg == [tr |-> e.a[2], mem16 |-> e.a[3] = 1, cap |-> e.a[4]]
 AllocFail == e.a[5] = 1
